@@ -2,6 +2,7 @@ package e1
 
 import (
 	"bytes"
+	"encoding/binary"
 	"fmt"
 	"sort"
 
@@ -192,6 +193,13 @@ func (s *Sim) OnTx(m *Model, t *TxTrace) {
 		s.onApproval(m, t, signer)
 	case "regcand", "regchain", "updchain", "quitchain", "regrelayer", "rmrelayer", "unregcand", "quitnode":
 		s.onRequest(m, t, signer, okS)
+	case "regasset":
+		if !witnessed(t, signer) && (t.OK || !noWrites(t)) {
+			s.R.Fail("C18", "owner-op-without-witness", "%v succeeded without the named operator's witness", st)
+		}
+		if t.OK {
+			s.R.Probe("asset_binding_registered")
+		}
 	case "commitdpos", "updateconfig", "blackchain", "whitechain":
 		s.onPrivileged(m, t)
 	case "import":
@@ -442,7 +450,11 @@ func (s *Sim) onImport(m *Model, t *TxTrace, voter common.Address) {
 		r.Probe("import_rejected_source_gate")
 		return
 	}
-	if srcChain.Router != utils.VOTE_ROUTER {
+	ripple := srcChain.Router == utils.RIPPLE_ROUTER
+	if ripple {
+		r.Probe("import_from_ripple_router_chain")
+	}
+	if srcChain.Router != utils.VOTE_ROUTER && !ripple {
 		if released {
 			r.Fail("C21", "import-released-by-other-router", "%v released through router %d without a proof", st, srcChain.Router)
 		}
@@ -506,7 +518,8 @@ func (s *Sim) onImport(m *Model, t *TxTrace, voter common.Address) {
 	}
 	// threshold reached by this vote: release attempt
 	// (C20 is stated for main net: the vote router skips the done check on the test network below a fork height)
-	doneEnforced := s.W.NetworkID != 2
+	// (the ripple router, which counts the same validator votes, checks the done mark on every network)
+	doneEnforced := s.W.NetworkID != 2 || ripple
 	r.Probe("vote_threshold_reached")
 	if n == need {
 		r.Probe("vote_threshold_reached_exactly")
@@ -518,6 +531,14 @@ func (s *Sim) onImport(m *Model, t *TxTrace, voter common.Address) {
 			r.Fail("C20", "replayed-message-accepted", "%v: message (chain %d, id %x) was already done but is accepted again (ok=%v)", st, src, ccid, t.OK)
 		}
 		r.Probe("replay_rejected")
+		return
+	case ripple && !pre.HasAssetBinding(src, dst):
+		// the ripple router cannot complete the message without the source chain's asset binding
+		// for the destination: the transaction fails as a whole (not asserted beyond atomicity)
+		r.Probe("ripple_import_without_asset_binding")
+		if t.OK && released {
+			r.Fail("C22", "request-content-wrong", "%v released although chain %d has no asset binding for destination %d", st, src, dst)
+		}
 		return
 	case pre.Blacked(dst) || dstChain == nil:
 		if t.OK || !noWrites(t) {
@@ -572,6 +593,22 @@ func (s *Sim) onImport(m *Model, t *TxTrace, voter common.Address) {
 	}
 	want := new(ccom.MakeTxParam)
 	want.Deserialization(common.NewZeroCopySource(p.Extra))
+	if ripple {
+		// the verified message of a ripple-router import: lock proxy and asset of the source chain's
+		// binding for the destination, destination address and the amount widened to 32 bytes
+		lock, asset := pre.AssetBinding(src, dst)
+		src0 := common.NewZeroCopySource(want.Args)
+		to, _ := src0.NextVarBytes()
+		amount, _ := src0.NextUint64()
+		sk := common.NewZeroCopySink(nil)
+		sk.WriteVarBytes(asset)
+		sk.WriteVarBytes(to)
+		var wide [32]byte
+		binary.LittleEndian.PutUint64(wide[:], amount)
+		sk.WriteBytes(wide[:])
+		want.ToContractAddress, want.Args = lock, sk.Bytes()
+		r.Probe("ripple_import_released")
+	}
 	if !bytes.Equal(mv.TxHash, relay.ToArray()) || mv.FromChainID != src || mv.MakeTxParam == nil || mv.MakeTxParam.ToChainID != dst ||
 		!bytes.Equal(mv.MakeTxParam.CrossChainID, want.CrossChainID) || !bytes.Equal(mv.MakeTxParam.Args, want.Args) || mv.MakeTxParam.Method != want.Method ||
 		!bytes.Equal(mv.MakeTxParam.ToContractAddress, want.ToContractAddress) || !bytes.Equal(mv.MakeTxParam.FromContractAddress, want.FromContractAddress) || !bytes.Equal(mv.MakeTxParam.TxHash, want.TxHash) {
